@@ -180,6 +180,40 @@ func runC19(args []string) int {
 		addForest(content, "corpus")
 	}
 
+	// (0') directed: alias-doubling chains (`aN: &aN [*aN-1, *aN-1]`).  A short one is parsed normally; one whose unfolding
+	// exceeds the limit of fix 2108dfa (1 000 000 nodes: 18+ levels) must be refused in both modes.  The forest is
+	// serialised with sharing (the graph has ~60 nodes), so the model's alias pre-pass `too_big` fires in a
+	// correspondence case and its saturating count is compared with the real one through the File error.
+	for _, levels := range []int{8 + r.Intn(3), 18 + r.Intn(3)} {
+		chain := []string{"a0: &a0 [{record: \"chain:a\", expr: up}, x]"}
+		for i := 1; i <= levels; i++ {
+			chain = append(chain, fmt.Sprintf("a%d: &a%d [*a%d, *a%d]", i, i, i-1, i-1))
+		}
+		content := strings.Join(chain, "\n") + "\n"
+		id++
+		term, fs, fr := forestCaseShared(id, []byte(content), parser.PrometheusSchema, model.UTF8Validation)
+		if term == "" {
+			rep.hist("skipped:shared-forest")
+			rep.Notes = append(rep.Notes, "alias chain not serialised: "+lastSharedSkip)
+			continue
+		}
+		cw.add(term)
+		rep.hist(fmt.Sprintf("class:alias-chain-%d-levels", levels))
+		refused := fs.Error.Err != nil && strings.Contains(fs.Error.Err.Error(), "expand to more than") &&
+			fr.Error.Err != nil && strings.Contains(fr.Error.Err.Error(), "expand to more than")
+		if levels >= 18 && !refused {
+			rep.fail(fmt.Sprint(id), "a document whose aliases unfold to more than a million nodes is not refused in both modes",
+				map[string]any{"content": content, "levels": levels})
+		}
+		if levels < 18 && (fr.Error.Err != nil || len(c19Rules(fr)) == 0) {
+			rep.fail(fmt.Sprint(id), "relaxed mode finds no rule in a short alias chain (or refuses it)", map[string]any{"content": content, "levels": levels})
+		}
+		rep.count(content, true)
+		if keepCases {
+			rep.Cases[fmt.Sprint(id)] = map[string]any{"class": "alias-chain", "content": content, "schema": 0, "names": int(model.UTF8Validation)}
+		}
+	}
+
 	// (1) strict-valid generated files: relaxed = strict
 	nValid, nWrap, nMixed := n*4/10, n*4/10, n*2/10
 	gv := newDocGen(r, 0)
